@@ -97,6 +97,10 @@ func oracle(h *Hist, out Outcome, refs *refCache) (fails []oracleFail) {
 			add("panic", "%s panicked: %s", where, o.Panic)
 			continue
 		}
+		if o.Result == "hung" {
+			add("sync-never-returns", "%s: SyncAdChain had not returned after %v (and again with longer waits); the subscriber cannot be closed either", where, fd.HungAfter)
+			continue
+		}
 		if len(o.BadStore) > 0 {
 			add("store-unsound", "%s: stored blocks that do not hash to their key: %v", where, o.BadStore)
 		}
@@ -137,6 +141,10 @@ func oracle(h *Hist, out Outcome, refs *refCache) (fails []oracleFail) {
 		// that many; a sync that fails has handed it at most an initial part of them
 		// (nothing at all when segmentation is off)
 		want := wantedSegment(op.Head, o.Latest0)
+		wantLen := len(want)
+		if h.Cfg.NoHook {
+			want, o.Hooks = nil, nil // without a BlockHook there is nothing to see (the count is still checked)
+		}
 		synced := !failed && (op.Mode == "announce" && nOk > 0 || op.Mode == "explicit" && o.Cid != o.Latest0)
 		switch {
 		case synced:
@@ -144,8 +152,8 @@ func oracle(h *Hist, out Outcome, refs *refCache) (fails []oracleFail) {
 				add("hook-log-not-the-segment", "%s succeeded (latest-sync before: %d): the hook was called for %v, the segment is %v", where, o.Latest0, o.Hooks, want)
 			}
 			for _, e := range o.Events {
-				if !e.Err && e.Count != len(want) {
-					add("event-count-not-segment-length", "%s: SyncFinished.Count = %d, the segment %v has %d blocks", where, e.Count, want, len(want))
+				if !e.Err && e.Count != wantLen {
+					add("event-count-not-segment-length", "%s: SyncFinished.Count = %d, the segment has %d blocks", where, e.Count, wantLen)
 				}
 			}
 		case failed:
